@@ -153,7 +153,20 @@ func (r *runner) liveChecks(n *Node, store db.KeyValueStore, w *World, ghost *li
 			}
 		}
 	}
+	if cause == "" && (len(fps) > 0 || hasSig(ps, "event-query-misses-events") || hasSig(ps, "event-query-fails")) {
+		// is the filter wrong because of what the disk made a (re)started instance believe?
+		cause, what = sc.restartCause(store, w)
+	}
 	return append(ps, fps...), cause, what
+}
+
+func hasSig(ps problems, sig string) bool {
+	for _, p := range ps {
+		if p.Sig == sig {
+			return true
+		}
+	}
+	return false
 }
 
 // runTwin executes the scenario without faults, checking the live node after every step and
@@ -272,7 +285,7 @@ func (tw *twin) crashAfter(step int) db.KeyValueStore {
 // restartCause explains, from the image alone, why a filter initialised from it cannot describe
 // the chain: a persisted window of a window that is not complete (L15), or a persisted snapshot
 // that lacks keys of blocks it claims to cover (L3).
-func (sc *Scenario) restartCause(img *memory.Database, w *World) (string, string) {
+func (sc *Scenario) restartCause(img db.KeyValueStore, w *World) (string, string) {
 	next := uint64(w.Height() + 1)
 	for _, lo := range persistedWindows(img) {
 		if lo+core.NumBlocksPerFilter > next {
@@ -308,7 +321,7 @@ func (r *runner) checkRestartedImage(sc *Scenario, img *memory.Database, w *Worl
 	work := img.Copy()
 	bc := sc.open(work)
 	ps := checkNode(bc, w, ghost, sc.Queries)
-	rf, err := restartFilter(img.Copy(), sc.Pruning)
+	rf, err := restartFilter(img, sc.Pruning)
 	if err != nil {
 		ps.add("running-filter-cannot-initialise", "initialising the running event filter from the image: %v", err)
 	} else {
@@ -422,7 +435,7 @@ func (r *runner) runFault(sc *Scenario, tw *twin, k int) {
 		}
 		// in-memory filter vs what a restart would build from the surviving disk
 		if mem, err := n.memFilter(); err == nil && s.Op != "prune" {
-			if disk, err := restartFilter(image(store), sc.Pruning); err == nil {
+			if disk, err := restartFilter(store, sc.Pruning); err == nil {
 				mo, do := sc.U.observeFilter(mem), sc.U.observeFilter(disk)
 				if mo != do {
 					cause = "running-filter-diverges-after-failed-" + s.Op + "-commit"
